@@ -392,7 +392,7 @@ fn compare(w: &mut World, e: &Value, sv: Option<&Value>, prop: &str, step: i64) 
     if e.b("po") {
         let want = flat_from_json(e.g("pv"));
         let Some(p) = w.per.as_ref() else {
-            return Err(Fail { step, key: format!("{prop}:harness"), msg: "spec has an open perspective, engine has none".into() });
+            vrt::die("spec has an open perspective, engine has none");
         };
         if o == "revert" {
             // C13's own predicate: the real view now vs the real view when the checkpoint was taken
@@ -431,7 +431,7 @@ fn compare(w: &mut World, e: &Value, sv: Option<&Value>, prop: &str, step: i64) 
     if e.b("fo") {
         let want = flat_from_json(e.g("fv"));
         let Some(f) = w.fper.as_ref() else {
-            return Err(Fail { step, key: format!("{prop}:harness"), msg: "spec has an open fact perspective, engine has none".into() });
+            vrt::die("spec has an open fact perspective, engine has none");
         };
         if let Err((k, m)) = check_view(f, &want) {
             drift += view_fail("fact-perspective", &k, m)?;
@@ -441,7 +441,7 @@ fn compare(w: &mut World, e: &Value, sv: Option<&Value>, prop: &str, step: i64) 
         let want = flat_from_json(e.g("sf"));
         let r = match w.last_index.as_ref() {
             Some(ix) => check_view(ix, &want),
-            None => Err(("harness".into(), "no index was written".into())),
+            None => vrt::die("write_facts expected but no index was written"),
         };
         if let Err((k, m)) = r {
             drift += view_fail("written-index", &k, m)?;
@@ -451,7 +451,7 @@ fn compare(w: &mut World, e: &Value, sv: Option<&Value>, prop: &str, step: i64) 
     if let Some(sv) = sv {
         let sv = sv.as_array().unwrap();
         if sv.len() != w.segs.len() {
-            return Err(Fail { step, key: format!("{prop}:harness"), msg: format!("spec has {} segments, engine {}", sv.len(), w.segs.len()) });
+            vrt::die(&format!("spec has {} segments, engine {}", sv.len(), w.segs.len()));
         }
         for (s, want) in sv.iter().enumerate() {
             let want = flat_from_json(want);
